@@ -5,7 +5,7 @@
    code WITH the fixes patches/C04-fix-1..10 applied (each defect was first reproduced on the unfixed code). *)
 From Coq Require Import List ZArith NArith Bool.
 From SV Require Import Gen.Consts Model.Footer Model.HostileTree Model.HostileRead Model.Hostile.
-From SV Require Import Proofs.Footer Proofs.HostileTree Proofs.HostileRead.
+From SV Require Import Model.HostileDb Proofs.Footer Proofs.HostileTree Proofs.HostileRead Proofs.HostileDb.
 Import ListNotations.
 
 (* Every footer parser (eStargz, legacy stargz, zstd:chunked, external TOC), on every byte string [p] of every length
@@ -53,6 +53,27 @@ Theorem C04_prefetch_walk_total :
   forall (s : st) (root : nat), walk_dirs s root <> Panic /\ walk_dirs s root <> OutOfFuel.
 Proof. exact walk_dirs_total. Qed.
 Print Assumptions C04_prefetch_walk_total.
+
+(* Memory store end to end: initFields, root lookup, assignIDs and the directory walk on EVERY entry list. *)
+Theorem C04_memory_store_total :
+  forall es : list entry, tree_run es <> Panic /\ tree_run es <> OutOfFuel.
+Proof. exact tree_run_total. Qed.
+Print Assumptions C04_memory_store_total.
+
+(* db store: initNodes on EVERY entry list (name resolution getIDByName and getOrCreateDir recurse on a strictly shorter
+   path: fuel = longest name/linkname + 2; hardlinks to anything, directory overwrite, chunk without file) returns a
+   node table or an error. *)
+Theorem C04_db_init_total :
+  forall es : list entry, db_init es <> Panic /\ db_init es <> OutOfFuel.
+Proof. exact db_init_total. Qed.
+Print Assumptions C04_db_init_total.
+
+(* db store end to end: initNodes, then the directory walk over the child graph it leaves (cyclic when a hardlink names an
+   ancestor directory), each directory id once. *)
+Theorem C04_db_store_total :
+  forall es : list entry, db_run es <> Panic /\ db_run es <> OutOfFuel.
+Proof. exact db_run_total. Qed.
+Print Assumptions C04_db_store_total.
 
 (* file.ReadAt never loops forever: for every chunk lookup function (any int64 pairs: gaps, overlaps, empty, negative,
    unsorted, wrapping chunks), every cache behaviour, every payload read result and verification result, every offset
@@ -135,3 +156,11 @@ Example C04_read_nonvacuous :
   read_run [(0, 10); (20, 10)]%Z 5 10 30 [] = Err
   /\ read_run [(0, 10); (10, 10); (20, 10)]%Z 3 20 30 [false; true; false] = Ok 20%Z.
 Proof. vm_compute. split; reflexivity. Qed.
+
+(* db store: a hardlink to the parent directory is accepted, the graph is cyclic (d -> l = d), 2 nodes, the walk ends;
+   a chunk before any file and a dangling hardlink are errors *)
+Example C04_db_nonvacuous :
+  db_run [mkEntry [0] TDir []; mkEntry [0; 1] THardlink [0]] = Ok (2, [([1], 0); ([0], 0)])
+  /\ db_run [mkEntry [0] TChunk []] = Err
+  /\ db_run [mkEntry [0] THardlink [5]] = Err.
+Proof. vm_compute. repeat split. Qed.
